@@ -3,11 +3,12 @@
 of /repo (outside /repo and /verif), run the quick check of the property it breaks against that copy, record verdict and
 first violation in seeded/<id>/meta.json ("checks"), and write seeded/MATRIX.md. Scratch copies are removed."""
 import sys, os, subprocess, shutil, tempfile, json, re
-ids = sys.argv[1:] or sorted(d for d in os.listdir("/verif/seeded") if os.path.isdir(os.path.join("/verif/seeded", d)))
+ROOT = os.path.dirname(os.path.dirname(os.path.abspath(__file__)))
+ids = sys.argv[1:] or sorted(d for d in os.listdir(os.path.join(ROOT, "seeded")) if os.path.isdir(os.path.join(os.path.join(ROOT, "seeded"), d)))
 env = dict(os.environ, GOFLAGS="-mod=mod", GOPROXY="off", GOSUMDB="off", GOTOOLCHAIN="local")
 EXTRA = {"C17-b": ["C15"], "C04-c": ["C13"], "C02-b": ["C05"], "C02-c": ["C04"], "C03-a": ["C01"], "C03-b": ["C01"], "C01-b": ["C03"]}
 for sid in ids:
-    d = os.path.join("/verif/seeded", sid)
+    d = os.path.join(os.path.join(ROOT, "seeded"), sid)
     meta = json.load(open(os.path.join(d, "meta.json")))
     prop = meta["property"]
     scratch = tempfile.mkdtemp(prefix="seedmx", dir="/tmp")
@@ -21,7 +22,7 @@ for sid in ids:
         else:
             res = {}
             for pr in [prop] + EXTRA.get(sid, []):
-                r = subprocess.run(["/verif/check", "quick", pr], env=dict(env, VERIF_REPO=scratch), capture_output=True, text=True)
+                r = subprocess.run([os.path.join(ROOT, "check"), "quick", pr], env=dict(env, VERIF_REPO=scratch), capture_output=True, text=True)
                 viol = [l for l in (r.stdout + r.stderr).splitlines() if l.startswith("VIOLATION")]
                 first = ""
                 if viol:
@@ -33,11 +34,11 @@ for sid in ids:
         print(sid, meta["checks"], flush=True)
     finally:
         shutil.rmtree(scratch, ignore_errors=True)
-subprocess.run("git -C /verif checkout -- evidence 2>/dev/null", shell=True)
+subprocess.run("git -C %s checkout -- evidence 2>/dev/null" % ROOT, shell=True)
 # matrix
 rows = []
-for sid in sorted(os.listdir("/verif/seeded")):
-    mp = os.path.join("/verif/seeded", sid, "meta.json")
+for sid in sorted(os.listdir(os.path.join(ROOT, "seeded"))):
+    mp = os.path.join(os.path.join(ROOT, "seeded"), sid, "meta.json")
     if not os.path.exists(mp):
         continue
     m = json.load(open(mp))
